@@ -220,3 +220,35 @@ Theorem C05_crash_with_undone_unlink_refuted_O2 :
       reopen_image s img = ReopenServes 1 {| d_id := 2; d_content := [0; 1] |}).
 Proof. exact crash_with_undone_unlink_refuted. Qed.
 Print Assumptions C05_crash_with_undone_unlink_refuted_O2.
+
+Close Scope nat_scope.
+Open Scope N_scope.
+
+(* F43: the payload.  `valid` stands for "json.Unmarshal succeeds (and the segments load)".
+   The repaired scan treats a candidate whose framing is accepted but whose payload is
+   invalid - a footer of three pages or more with a page in between missing - like any
+   other torn footer: for ANY file holding a complete footer (F1, j1) with a valid payload in
+   which every later candidate is rejected by the framing checks or invalid, (F1, j1) is read *)
+Theorem C05_torn_multi_page_footer_is_skipped :
+  forall P : N, footerBegLen <= P ->
+  forall (valid : bytes -> bool) (f' : bytes) (F1 : N) (j1 : bytes),
+    aligned P F1 -> 0 < F1 ->
+    slice f' F1 (footer_len j1) = Some (footer_bytes F1 j1) ->
+    footer_len j1 < 2 ^ 32 -> F1 < 2 ^ 64 ->
+    valid j1 = true ->
+    no_valid_footer P valid f' F1 ->
+    read_footer_json valid P f' = Found F1 j1.
+Proof. exact C05_json_general. Qed.
+Print Assumptions C05_torn_multi_page_footer_is_skipped.
+
+(* the pinned scan returned the error of json.Unmarshal: with the newest accepted candidate
+   invalid, the open fails whatever intact footers lie before it *)
+Theorem C05_refuted_pre_fix_unparsable_payload_is_fatal_F43 :
+  forall P : N, footerBegLen <= P ->
+  forall (valid : bytes -> bool) (f' : bytes) (q p : N) (j : bytes),
+    aligned P q -> 0 < q -> q <= blen f' - 1 ->
+    scan_step_repaired f' q = Done (Found p j) -> valid j = false ->
+    (forall q', aligned P q' -> q < q' -> q' <= blen f' - 1 -> scan_step_repaired f' q' = Continue) ->
+    read_footer_json_pinned valid P f' = ScanError.
+Proof. exact C05_json_pinned_refuted. Qed.
+Print Assumptions C05_refuted_pre_fix_unparsable_payload_is_fatal_F43.
